@@ -50,9 +50,12 @@ Proof.
     rewrite E. reflexivity.
 Qed.
 
+Definition fr_touch_pg (p : N) (f : frame) : bool :=
+  existsb (N.eqb p) (fr_page f) || match f with HD3 _ _ ps => memN p ps | _ => false end.
+
 Lemma kill_page c p t0 :
   Inv c -> own (getp c p) t0 = true -> pg_used (getp c p) = 0 ->
-  (forall f, In f (th_stk (gett c t0)) -> fr_touch p f = false) ->
+  (forall f, In f (th_stk (gett c t0)) -> fr_touch_pg p f = false) ->
   pg_flag (getp c p) <> Freeing /\ pg_tf (getp c p) = [] /\ Inv (setp c p pg0).
 Proof.
   intros I Hown Hu Hnt. pose proof (i_wf _ I) as Hwf.
@@ -92,13 +95,16 @@ Proof.
   split; [assumption|]. split; [assumption|].
   (* no frame of any thread refers to p *)
   assert (Hall : forall t f, In f (th_stk (gett c t)) -> fr_touch p f = false).
-  { intros t f Hf. destruct (N.eq_dec t t0) as [->|Hne]; [apply Hnt; assumption|].
-    pose proof (s_frames _ (i_S _ I) t) as F. rewrite forallb_forall in F. specialize (F f Hf).
-    assert (Hq : forall q, own (getp c q) t = true -> (p =? q) = false).
-    { intros q Ho. apply N.eqb_neq. intros <-. apply own_true in Ho as [_ Ho]. congruence. }
+  { intros t f Hf.
     assert (Hb : existsb (onp p) (fr_blocks f) = false).
     { destruct (existsb (onp p) (fr_blocks f)) eqn:Ex; [|reflexivity]. apply existsb_exists in Ex as [b [Hb1 Hb2]].
       unfold onp in Hb2. apply N.eqb_eq in Hb2. exfalso. apply (Hnb t f b Hf Hb1 Hb2). }
+    destruct (N.eq_dec t t0) as [->|Hne].
+    { specialize (Hnt f Hf). unfold fr_touch, fr_touch_pg in *. apply orb_false_iff in Hnt as [H1 H2].
+      rewrite H1, Hb, H2. reflexivity. }
+    pose proof (s_frames _ (i_S _ I) t) as F. rewrite forallb_forall in F. specialize (F f Hf).
+    assert (Hq : forall q, own (getp c q) t = true -> (p =? q) = false).
+    { intros q Ho. apply N.eqb_neq. intros <-. apply own_true in Ho as [_ Ho]. congruence. }
     unfold fr_touch. rewrite Hb. rewrite orb_false_r.
     destruct f; cbn [fr_page existsb fr_ok] in *; rewrite ?orb_false_r; try reflexivity;
       rewrite ?andb_true_iff in F; repeat match goal with H : _ /\ _ |- _ => destruct H end;
@@ -168,4 +174,15 @@ Proof.
       destruct f; cbn [hd_fr_okP] in *; auto.
       * intros q. rewrite Gp. destruct (q =? p); [discriminate|apply S9].
       * destruct S9 as [H1 H2]. split; [|exact H2]. intros q. rewrite Gp. destruct (q =? p); [discriminate|apply H1].
+Qed.
+
+(* what is below a page-free frame *)
+Lemma pf_rest p rest : stk_ok (PF p :: rest) = true -> forall f, In f rest -> forall q, fr_touch_pg q f = false.
+Proof.
+  intros H. pose proof (stk_ok_tail _ _ H) as H2. cbn [stk_ok] in H. apply andb_prop in H as [H1 _].
+  destruct rest as [|g rest']; [intros f []|]. destruct g; try discriminate H1.
+  - (* DP3 *) destruct (dp_rest (DP3 h pend af) h rest' eq_refl H2) as [->|[(r' & -> & [->|[(fo & ->)| ->]])|(bk & ->)]];
+      intros f Hin q; cbn [In] in Hin; repeat destruct Hin as [Hin|Hin]; subst; try contradiction; reflexivity.
+  - (* HC3 *) destruct rest'; [|cbn in H2; discriminate H2].
+    intros f [<-|[]] q. reflexivity.
 Qed.
